@@ -53,7 +53,9 @@ def own_view(acc, kind, shape, pick):
     ro = cands[pick % len(cands)]
     mirror = (lambda a: a.T) if (len(shape) == 2 and shape[0] == shape[1] and pick % 2) else ((lambda a: a[::-1]) if shape[0] >= 2 else (lambda a: a[..., ::-1]))
     view = mirror(ro)
-    of_mean = kind in ('var', 'rvar') and ro is cands[0] and np.shares_memory(ro, acc.mean.value)
+    # (for a plain Mean the model's one-statement step gives the same for a view as for a copy — C12Alias.mean_one_eq_pure — so the tie
+    # holds whether or not `value` is the live state)
+    of_mean = (kind in ('var', 'rvar') and ro is cands[0] and np.shares_memory(ro, acc.mean.value)) or kind == 'mean'
     # component i of the view is component sigma[i] of the array it is a view of
     sigma = [int(t) for t in mirror(np.arange(int(np.prod(shape))).reshape(shape)).ravel()]
     OWN_VIEW_INFO[0] = dict(of_mean=bool(of_mean), sigma=sigma)
@@ -70,6 +72,8 @@ def alias_tie_before(arr, values):
     info = OWN_VIEW_INFO[0]
     fq = lambda a: ' '.join(acclib.fmt_frac(Fraction(float(t))) for t in np.asarray(a, dtype=float).ravel())     # noqa
     obs = ('view ' + ' '.join(map(str, info['sigma']))) if info['of_mean'] else ('fresh ' + fq(values))
+    if not hasattr(arr, 'rms'):
+        return 'alias.meanstep one %d | %s | %s' % (arr.n, fq(arr.value), obs)          # a plain Mean: its value IS its state
     return 'alias.step fixed %d | %s | %s | %s' % (arr.n, fq(arr.mean.value), fq(arr.rms), obs)
 
 
@@ -90,10 +94,12 @@ def grid_case(ctx, kind, shape, vals, L, merge_at, own_at=None):
             view, values = own_view(arr, kind, shape, own_at[1])
             if view is not None:
                 ctx.count('own_readout_as_observation')
-                tie = alias_tie_before(arr, values) if kind == 'var' and arr.n >= 1 else None
+                tie = alias_tie_before(arr, values) if kind in ('var', 'mean') and arr.n >= 1 else None
                 arr.accumulate(view)
-                if tie:
+                if tie and kind == 'var':
                     ALIAS_TIES.append((tie, (arr.n, [float(t) for t in np.ravel(arr.mean.value)], [float(t) for t in np.ravel(arr.rms)]), case))
+                elif tie:
+                    ALIAS_TIES.append((tie, (arr.n, [float(t) for t in np.ravel(arr.value)], []), case))
                 for c in range(ncomp):
                     grid[c].accumulate(float(values.ravel()[c]))
                 if not compare(ctx, kind, arr, grid, ncomp, case, 'after a mirrored view of its own read-out was fed before observation %d' % i):
@@ -335,7 +341,8 @@ def compare_alias_ties(ctx):
     for (line, (n, mean, var), case), ml in zip(ties, mout):
         ctx.count('alias_model_ties')
         try:
-            mn, mm, mv = [part.split() for part in ml.split('|')]
+            parts = [part.split() for part in ml.split('|')]
+            mn, mm, mv = parts if len(parts) == 3 else (parts[0], parts[1], [])
             model = (int(mn[0]), [Fraction(t) for t in mm], [Fraction(t) for t in mv])
         except Exception:  # noqa
             ctx.disagree('alias-model-correspondence', case, dict(n=n, mean=mean, var=var), ml[:300], line[:300])
